@@ -3,9 +3,11 @@
 //! Exhaustive sweep (DESIGN.md §4 C06): every point set of the enumerated families x every kernel
 //! method of the grid x {f64, f32} x Dense and Sparse(k) for every 0 < k < n with each of the three
 //! neighbour indices x owned kernel and view, compared with a reference kernel function and a
-//! brute-force neighbour ranking; and, for every Gaussian f64 kernel so built, all 7 linkage
-//! methods x every cluster count 1..n+1 x thresholds exactly at / midway between the linkage
-//! dissimilarities, compared with a tie-exploring textbook agglomeration (`linkref`).
+//! brute-force neighbour ranking; and, for the kernels so built (quick: f64 Gaussian, Linear,
+//! Polynomial(1,2); thorough: all, f64 and f32), all 7 linkage methods x every cluster count
+//! 1..n+1 x thresholds exactly at / midway between the linkage dissimilarities, compared with a
+//! tie-exploring textbook agglomeration (`linkref`). Large point sets (n = 20..49) exercise the
+//! tree indices above their leaf size.
 
 mod linkref;
 
